@@ -33,6 +33,8 @@ PS3 == <<Comp("PB", <<>>, <<>>), Comp("PA", <<"M4">>, <<>>)>>
 PS4 == <<Comp("PHandler", <<"H2">>, <<>>)>>
 PS5 == <<Comp("PLate", <<>>, <<>>), Comp("PA", <<>>, <<>>)>>          \* priority 5 listed first
 PS6 == <<Comp("PA", <<>>, <<>>), Comp("PHandler", <<>>, Kw1("M2"))>>
+PS7 == <<Comp("PHandler", <<>>, Kw1("O2")), Comp("PLate", <<"R1">>, <<>>)>>
+PS8 == <<Comp("PB", <<"L1", "D1">>, Kw2("H1", "M8"))>>
 
 \* entity lists of length n: explicit ids pairwise distinct and before the automatic ones
 IdSeqs(n, IDs) == {g \in [1 .. n -> IDs \cup {AutoMark}] :
@@ -47,7 +49,7 @@ IdsT == IdsQ \cup {<<"s", 2>>}             \* <<"s", 2>> is the string "1": not 
 CONSTANT Fam       \* which family (cfg:  PickDesc <- InFam)
 SHsT == {SH0, SH1, SH2, SH3, SH4, SH5}
 PSOf(k) == CASE k = "TS0" -> PS0 [] k = "TS1" -> PS1 [] k = "TS2" -> PS2 [] k = "TS3" -> PS3
-             [] k = "TS4" -> PS4 [] k = "TS5" -> PS5 [] k = "TS6" -> PS6
+             [] k = "TS4" -> PS4 [] k = "TS5" -> PS5 [] k = "TS6" -> PS6 [] k = "TS7" -> PS7 [] k = "TS8" -> PS8
 QuickV(d) == InV(d, ArgsOne \cup ArgsTwo(Core), {"CPlain", "CHandler"}, {"PA"})
 QuickS(d) == InS(d, {PS0, PS2, PS5, PS6}, 3, IdsQ, {SH0, SH1, SH3, SH4})
 InFam(d) ==
@@ -59,5 +61,5 @@ InFam(d) ==
     \/ Fam = "TV1"    /\ InV(d, ArgsOne \cup ArgsTwo(Toks), {"CPlain"}, {})
     \/ Fam = "TV2"    /\ InV(d, ArgsOne \cup ArgsTwo(Toks), {"CHandler"}, {})
     \/ Fam = "TV3"    /\ InV(d, ArgsOne \cup ArgsTwo(Toks), {}, {"PA", "PHandler"})
-    \/ Fam \in {"TS0", "TS1", "TS2", "TS3", "TS4", "TS5", "TS6"} /\ InS(d, {PSOf(Fam)}, 3, IdsT, SHsT)
+    \/ Fam \in {"TS0", "TS1", "TS2", "TS3", "TS4", "TS5", "TS6", "TS7", "TS8"} /\ InS(d, {PSOf(Fam)}, 3, IdsT, SHsT)
 =============================================================================
